@@ -340,14 +340,15 @@ impl LuaEngine {
         
         let keys_table = lua.create_table().map_err(|e| FerrousError::LuaError(e.to_string()))?;
         for (i, key) in keys.iter().enumerate() {
-            let key_str = String::from_utf8_lossy(key).into_owned();
+            // Byte for byte: a Lua string holds arbitrary bytes
+            let key_str = lua.create_string(key).map_err(|e| FerrousError::LuaError(e.to_string()))?;
             keys_table.set(i + 1, key_str).map_err(|e| FerrousError::LuaError(e.to_string()))?;
         }
         globals.set("KEYS", keys_table).map_err(|e| FerrousError::LuaError(e.to_string()))?;
         
         let argv_table = lua.create_table().map_err(|e| FerrousError::LuaError(e.to_string()))?;
         for (i, arg) in args.iter().enumerate() {
-            let arg_str = String::from_utf8_lossy(arg).into_owned();
+            let arg_str = lua.create_string(arg).map_err(|e| FerrousError::LuaError(e.to_string()))?;
             argv_table.set(i + 1, arg_str).map_err(|e| FerrousError::LuaError(e.to_string()))?;
         }
         globals.set("ARGV", argv_table).map_err(|e| FerrousError::LuaError(e.to_string()))?;
